@@ -371,6 +371,9 @@ def run(tier):
     import sessionwalk
     sw = sessionwalk.stage(PID, wd, tier, verdict)
     sw.update(keys.stage(PID, wd, tier, verdict))
+    # where the commands land, against the landing laws of NavGeom.tla (refinement level only)
+    import navgeom
+    sw.update(navgeom.stage(scripts, results, wd, verdict))
     rc = verdict.finish(wd)
     moved = sum(1 for e in events if e["k"] == "cmd" and e["after"] != e["before"])
     kinds = {}
@@ -418,6 +421,8 @@ def selftest(tier):
         raise C.ToolError(f"selftest: key-press events not judged as expected: {rej} {dr}")
     import keys
     keys.selftest(wd)
+    import navgeom
+    navgeom.selftest(wd)
     C.log("[C11] selftest ok")
     return 0
 
